@@ -41,6 +41,58 @@ func runC10(c *Ctx) {
 	// the segmentation loop may live in a helper of sendLoop: the rules below are about the function holding it
 	sl = nsCall.Parent()
 	var bufArgs []ssa.Value // what sendLoop passes for the helper's buffer parameter
+	// the other way to cut: payload = buffer.Next(max). The buffer advances by itself; what is left to get right is the
+	// loop: another segment exactly while bytes remain (an exit on "the last piece was short" sends an empty segment
+	// after a batch that is an exact multiple of the segment size). The remaining rules were not derived for this form.
+	if nx, isCall := nsCall.Common().Args[1].(*ssa.Call); isCall && calleeName(&nx.Call) == "bytes.(*Buffer).Next" {
+		nbuf := nx.Call.Args[0]
+		var head *ssa.BasicBlock // innermost loop around the cut
+		for h := nsCall.Block(); h != nil && head == nil; h = h.Idom() {
+			for _, pb := range h.Preds {
+				if h.Dominates(pb) && (pb == nsCall.Block() || reachesBlock(nsCall.Block(), pb)) {
+					head = h
+				}
+			}
+		}
+		okExit, wrongExit := false, false
+		exitPos := nsCall.Pos()
+		if head != nil {
+			// the body of the segment loop: blocks the head dominates that get back to it without going round an enclosing loop
+			avoid := map[*ssa.BasicBlock]bool{}
+			for d := head.Idom(); d != nil; d = d.Idom() {
+				if reachesBlock(head, d) && reachesBlock(d, head) {
+					avoid[d] = true
+					break
+				}
+			}
+			inBody := func(x *ssa.BasicBlock) bool {
+				return x == head || (head.Dominates(x) && reachAvoidBlocks(x, avoid)[head])
+			}
+			for _, ef := range edgeFacts(sl) {
+				if !inBody(ef.From) {
+					continue
+				}
+				tgt := ef.From.Succs[ef.Succ]
+				leaves := !inBody(tgt)
+
+				lenD := "call:bytes.(*Buffer).Len(" + desc(nbuf) + ")"
+				switch {
+				case leaves && (ef.Fact == lenD+" == 0" || ef.Fact == lenD+" <= 0" || ef.Fact == lenD+" < 1"):
+					okExit = true
+				case leaves && !strings.HasPrefix(ef.Fact, lenD) && nsCall.Block().Dominates(ef.From) && strings.Contains(ef.Fact, "len("):
+					if p := ef.From.Instrs[len(ef.From.Instrs)-1].Pos(); p.IsValid() {
+						exitPos = p
+					}
+					wrongExit = true
+				}
+			}
+		}
+		if !okExit && wrongExit {
+			c.Bad("segment-loop-exit", key, exitPos, "the segment loop ends on the length of the piece just cut instead of on 'no bytes remain in the buffer': a batch that is an exact multiple of the segment size is followed by an empty segment, which the peer's muxer rejects")
+			return
+		}
+		c.Undecided("sendLoop: segments are cut with bytes.Buffer.Next; the cut/remainder rules were derived for the Bytes()[:L] form and not for this one")
+	}
 	prefix, ok := nsCall.Common().Args[1].(*ssa.Slice)
 	if !ok || prefix.Low != nil || prefix.High == nil {
 		c.Bad("segment-cut", key+":prefix", nsCall.Pos(), "segment payload is %s, not a prefix buffer.Bytes()[:L]", desc(nsCall.Common().Args[1]))
